@@ -1032,6 +1032,25 @@ def sized_body(rng, with_children=True):
     return out
 
 
+def nested_sized_payload(rng):
+    """Hierarchies in which a CHILD has a size-delimited payload of its own, with a size modifier that differs from the
+    one of its ancestor's payload (or where only one of them has a modifier): each `_size_(_payload_)` field must be
+    written and read with the modifier of the payload of ITS OWN declaration.  Returns PDL texts."""
+    out = []
+    for i, (m0, m1) in enumerate([(None, 2), (3, None), (1, 2)]):
+        endian = rng.choice(["little", "big"])
+        pm = lambda m: (" : [+%d]" % m) if m else ""
+        w0, w1 = rng.choice([8, 16]), rng.choice([8, 16])
+        t = "%s_endian_packets\n\n" % endian
+        t += "packet Fr%d {\n  kind : 8,\n  _size_(_payload_) : %d,\n  _payload_%s\n}\n" % (i, w0, pm(m0))
+        t += "packet Sg%d : Fr%d (kind = %d) {\n  seq : 8,\n  _size_(_payload_) : %d,\n  _payload_%s\n}\n" % (i, i, i + 1, w1, pm(m1))
+        t += "packet Lf%d : Sg%d {\n  x : 8,\n  y : 8[]\n}\n" % (i, i)
+        if rng.random() < 0.5:
+            t += "packet Pg%d : Fr%d (kind = %d) {\n  z : 16\n}\n" % (i, i, i + 9)
+        out.append(t)
+    return out
+
+
 def wide(rng, n=3):
     """Bit-field groups and array elements wider than 32 bits (40 / 48 / 56 / 64), with fields that straddle bits
     31 / 32 and 8-bit boundaries, scalars and enums; both byte orders.  The main generator prefers the four
